@@ -1,0 +1,24 @@
+//go:build verif
+
+package backend
+
+// Contracts for the gvc verifier (/verif). Comment-only; never compiled into
+// a normal build.
+
+// handleDumbSendFile (C40: the dumb HTTP server never serves a file outside
+// the loader's root). The only file the handler opens is opened through the
+// filesystem of the storage the loader returned, and that handle is what is
+// copied to the response: no host-path access (package os, net/http's file
+// servers) stands beside it, so the loader's confinement is the handler's.
+//gvc:func (*Backend).handleDumbSendFile
+//gvc:  props C40
+//gvc:  theory int
+//gvc:  opt coarse
+//gvc:  opt frame args
+//gvc:  sink os.* requires confined: false
+//gvc:  sink net/http.Serve* requires confined: false
+//gvc:  sink net/http.FileServer* requires confined: false
+//gvc:  sink Open requires viastorage: recv.#owner == st
+//gvc:  sink Lstat requires viastorage: recv.#owner == st
+//gvc:  sink CopyBufferPool requires opened: arg1 == f
+//gvc:end
